@@ -1324,6 +1324,140 @@ def run_bin_r(case):
 
 
 # ---------------------------------------------------------------------------------------------
+# slice encodings: the same value as int / numpy scalar / float32 / Fraction / -0.0 gives the same answer, and the
+# answer does not depend on what was asked before (the float answers themselves are judged by the slices above)
+# ---------------------------------------------------------------------------------------------
+ENC_V = (0.0, -0.0, 1.0, -1.0, 37.0, 2.5, -2.5, 2.75, 37 + 2.0**-10, -129 + 2.0**-20, 0.5, 0.25, -0.125, 3.0, 1024.0,
+         2.0**-10, 0.75, 2.0**31, 1e15, 1.0 - 2.0**-12, 0.1, -1 / 3)
+ENC_X = ("int", "i64", "f64", "f32", "Fraction")
+ENC_T = ("float", "f64", "Fraction")
+ENC_TOL = (1e-3, 1e-6, 2.0**-10)
+ENC_FN = ("split_float", "maybe_int", "is_almost_int", "maybe_zero", "snap_scale")
+ENC_SG = ((20, 30, 10), (20, 31, 10), (-7, 8, 3), (0, 0, 1), (5, 5, -2), (-40, 100, -10), (19, 30, -10), (3, 4, 1))
+ENC_SG_OFF = ("0.0", "int0", "np0", "False", "0.5", "0.3", "None")
+
+
+def gen_enc():
+    for fn in ENC_FN:
+        for vi in range(len(ENC_V)):
+            for ex in ENC_X:
+                for et in ENC_T:
+                    for tol in ENC_TOL:
+                        yield (fn, vi, ex, et, tol)
+    for gi in range(len(ENC_SG)):
+        for off in ENC_SG_OFF:
+            for ex in ("int", "i64", "f64", "mixed"):
+                for tol in (1e-6, 0.0, 0.1):
+                    yield ("snap_grid", gi, ex, off, tol)
+
+
+def _enc(v, e):
+    """encode float v; None when the encoding cannot hold the value exactly"""
+    if e in ("float",):
+        return v
+    if e == "int":
+        return int(v) if float(v).is_integer() and (v != 0 or math.copysign(1, v) > 0) else None
+    if e == "i64":
+        return np.int64(v) if float(v).is_integer() and abs(v) < 2**62 and (v != 0 or math.copysign(1, v) > 0) else None
+    if e == "f64":
+        return np.float64(v)
+    if e == "f32":
+        return np.float32(v) if float(np.float32(v)) == v else None
+    if e == "Fraction":
+        return Fr(v)
+    raise ValueError(e)
+
+
+def _same(a, b):
+    if isinstance(a, tuple):
+        return isinstance(b, tuple) and len(a) == len(b) and all(_same(u, v) for u, v in zip(a, b))
+    return bool(a == b)
+
+
+def run_enc(case):
+    fn, vi, ex, et, tol = case
+    if fn == "snap_grid":
+        x0, x1, res = ENC_SG[vi]
+        off_s = et
+        off = {"0.0": 0.0, "int0": 0, "np0": np.float64(0.0), "False": False, "0.5": 0.5, "0.3": 0.3, "None": None}[off_s]
+        ref_off = None if off is None else float(off)
+        want = M.snap_grid(float(x0), float(x1), float(res), ref_off, tol)
+        if ex == "int":
+            args = (x0, x1, res)
+        elif ex == "i64":
+            args = (np.int64(x0), np.int64(x1), np.int64(res))
+        elif ex == "f64":
+            args = (np.float64(x0), np.float64(x1), np.float64(res))
+        else:
+            args = (x0, np.float64(x1), float(res))
+        got = M.snap_grid(*args, off, tol)
+        r = R(outcome=f"snap_grid:{ex}:off-{off_s}")
+        if not (got[0] == want[0] and got[1] == want[1] and isinstance(got[1], int)):
+            r.fail(f"snap_grid:encoding:{ex}:off-{off_s}", f"snap_grid{args + (off, tol)!r} -> {got!r}, floats give {want!r}")
+        # a zero offset, however spelled, means edge-aligned snapping - not "no snapping"
+        if off is not None and ref_off == 0.0 and res > 0 and float(got[0]) / res != round(float(got[0]) / res):
+            r.fail(f"snap_grid:zero-offset-not-snapped:off-{off_s}", f"snap_grid{args + (off, tol)!r} -> {got!r}")
+        return r
+    f = getattr(M, fn)
+    v = ENC_V[vi]
+    x, t = _enc(v, ex), _enc(tol, et)
+    if x is None:
+        return R(outcome=f"enc-n/a:{ex}", nontrivial=False)
+    r = R(outcome=f"{fn}:{ex}:{et}")
+    one = fn == "split_float"
+    want = f(v) if one else f(v, tol)
+    got = f(x) if one else f(x, t)
+    if not _same(got, want):
+        r.fail(f"{fn}:encoding:{ex}:tol-{et}", f"{fn}({x!r}{'' if one else ', ' + repr(t)}) -> {got!r}, floats give {want!r}")
+    # call history must not matter
+    for u in (math.nan, math.inf, -1e300, -0.0, 5e-324):
+        f(u) if one else f(u, tol)
+    again = f(x) if one else f(x, t)
+    if not _same(again, got):
+        r.fail(f"{fn}:history", f"{fn}({x!r}) -> {got!r}, after other calls -> {again!r}")
+    return r
+
+
+# ---------------------------------------------------------------------------------------------
+# slice quasi-random: quasi_random_r2 is a pure function of (n, shape, offset)
+# ---------------------------------------------------------------------------------------------
+QR_N = (1, 2, 3, 10, 100, 1000)
+QR_OFF = (0, 1, 7, 103)
+QR_SHAPE = (None, (30, 20), (101, 104), (1, 1), (20, 30))
+
+
+def gen_qr():
+    for n in QR_N:
+        for off in QR_OFF:
+            for shape in QR_SHAPE:
+                yield (n, off, shape)
+
+
+def run_qr(case):
+    n, off, shape = case
+    r = R(outcome=f"{'unit' if shape is None else 'scaled'}:{'offset' if off else 'start'}")
+    what = f"quasi_random_r2({n}, shape={shape}, offset={off})"
+    a = M.quasi_random_r2(n, shape, off)
+    M.quasi_random_r2(5, (3, 4), 11)  # unrelated request in between
+    b = M.quasi_random_r2(n, shape=shape, offset=off)
+    if a.shape != (n, 2) or not np.array_equal(a, b):
+        r.fail("quasi_random_r2:not-deterministic", what + " gives different answers on two calls")
+        return r
+    ny, nx = shape if shape is not None else (1, 1)
+    if a.min() < 0 or not (a[:, 0] < nx).all() or not (a[:, 1] < ny).all():
+        r.fail("quasi_random_r2:range", what + f": values outside [0,{nx}) x [0,{ny})")
+    # offset means "from that position of the same sequence"
+    full = M.quasi_random_r2(n + off, shape)
+    if not np.array_equal(full[off:], a):
+        r.fail("quasi_random_r2:offset", what + " is not the tail of the sequence generated from 0")
+    if shape is not None:
+        unit = M.quasi_random_r2(n, None, off)
+        if not np.allclose(a, unit * np.array([nx, ny]), rtol=1e-15, atol=0):
+            r.fail("quasi_random_r2:scaling", what + " is not the unit sequence scaled to the shape")
+    return r
+
+
+# ---------------------------------------------------------------------------------------------
 def slices(tier):
     return [
         e1.Slice("near-int", gen_nearint(tier), run_nearint,
@@ -1340,6 +1474,9 @@ def slices(tier):
         e1.Slice("poly2d", gen_p2(tier), run_p2, "triples, 2xk and kxm (k,m>=3) full grids x frames x affine/bilinear/biquadratic maps"),
         e1.Slice("axis", gen_axis, run_axis, "regular labels n in {1,2,3,5,16} per axis, fallback forms, error cases"),
         e1.Slice("bin1d-D", gen_bin(BD_SZ, BD_ORG, BD_F), run_bin_d, "dyadic sizes/origins, idx -5..5, points at edges and inside; exact"),
+        e1.Slice("encodings", gen_enc, run_enc,
+                 "scalar helpers and snap_grid: value x {int, int64, float64, float32, Fraction} x tol encoding; call history"),
+        e1.Slice("quasi-random", gen_qr, run_qr, "n x offset x shape: determinism, range, offset = tail of the sequence"),
         e1.Slice("bin1d-R", gen_bin(BR_SZ, BR_ORG, BR_F), run_bin_r, "realistic sizes/origins, points strictly inside bins"),
     ]
 
